@@ -775,7 +775,8 @@ impl Session {
 pub fn open_with(file: MonFile, mode: Mode, bufsize: Option<usize>) -> io::Result<CF> {
     // The two builder calls commute; which comes first is a pure function of the image
     // size (so a replay makes the same choice).
-    let strict_first = (file.st.len() / 64) % 2 == 1;
+    let n = file.st.len();
+    let strict_first = (n / 512 + n / 4096) % 2 == 1;
     let mut o = OpenOptions::new();
     if strict_first && mode == Mode::Strict {
         o = o.strict();
